@@ -646,3 +646,29 @@ class RwcMode(vlib.Mode):
 
 def modes(tier):
     return [RwcMode()]
+
+
+# "the rule listing always equals the rules added and not since deleted", as the host's HTTP / websocket rule API (internal/vw) applies it:
+# the vwapi histories of C18 (which end in listings through all three interfaces and re-apply rule ids with one member changed), judged
+# here on the listing clauses only
+import c18 as _c18
+
+
+class VwForC16(_c18.VwApiMode):
+    KEEP = ("listing-not-latest-rule", "reserved-id-listed", "delete-all-incomplete", "crash", "stuck")
+
+    def generate(self, rng, tier):
+        cases = _c18.VwApiMode.generate(self, rng, tier)
+        return cases[:len(cases) // 3]
+
+    def oracle(self, case, out):
+        return [x for x in _c18.VwApiMode.oracle(self, case, out) if x[0] in self.KEEP]
+
+
+_modes_c16 = modes
+
+
+def modes(tier):
+    return _modes_c16(tier) + [VwForC16()]
+
+RULE = RULE + " vwapi mode (see C18): the rule API of the host process in front of the rwc hub; listing clauses."
